@@ -629,5 +629,24 @@ func buildCorpus() []seed {
 		m.ExportFunc("ls", m.AddFunc(nil, nil, nil, a().I32Const(0).I32Const(0).Mem(0x28, 2, 4).Mem(0x36, 2, 8).B))
 		add("table-noparams", fBR, m)
 	}
+	{ // element segments (index form and expression form) next to globals that are NOT references, with one
+		// exported call_indirect per table slot and a table.get: wazero tags element items with bits 30/31
+		// ("item comes from global k" / null), so an item that is mistaken for a tagged one turns the raw value
+		// of a numeric global into a function pointer
+		m := &wb.Module{}
+		m.Tables = []wb.Table{{Elem: fref, Lim: wb.Limits{Min: 3}}}
+		m.AddGlobal(i64, false, wb.CI64(8))
+		m.AddGlobal(i32, false, wb.CI32(5))
+		t0 := m.Type(nil, vt(i32))
+		f0 := m.AddFunc(nil, vt(i32), nil, a().I32Const(21).B)
+		m.Elems = append(m.Elems,
+			wb.Elem{Mode: 0, Offset: wb.CI32(0), Funcs: []uint32{f0}},
+			wb.Elem{Mode: 0, Offset: wb.CI32(1), Funcs: []uint32{f0}, UseExprs: true})
+		m.ExportFunc("c0", m.AddFunc(nil, vt(i32), nil, a().I32Const(0).CallIndirect(t0, 0).B))
+		m.ExportFunc("c1", m.AddFunc(nil, vt(i32), nil, a().I32Const(1).CallIndirect(t0, 0).B))
+		m.ExportFunc("c2", m.AddFunc(nil, vt(i32), nil, a().I32Const(2).CallIndirect(t0, 0).B))
+		m.ExportFunc("n1", m.AddFunc(nil, vt(i32), nil, a().I32Const(1).TableGet(0).RefIsNull().B))
+		add("elem-next-to-globals", fBR, m)
+	}
 	return out
 }
